@@ -660,3 +660,24 @@ def feasible_path_avoiding(fn, start, goal, avoid, limit=20000):
     finally:
         sys.setrecursionlimit(old)
 
+
+def inlined_view(prog, fn, callees):
+    """a copy of fn in which every direct call to one of `callees` (closures or functions of the crate) is inlined - lets a rule
+    reason about `let check = |v| ..; check(x)` and about the same test written in line with one piece of code"""
+    import copy
+    from . import inline
+    from .facts import Fn
+    d = copy.deepcopy(fn.d)
+    changed = False
+    b = 0
+    while b < len(d["blocks"]) and len(d["blocks"]) < 4000:
+        t = d["blocks"][b]["term"]
+        c = (t.get("f", {}).get("resolved") or t.get("f", {}).get("fn")) if t.get("k") == "call" else None
+        if c in callees and c in prog.fns:
+            g = copy.deepcopy(prog.fns[c].d)
+            if len(t.get("args", [])) == g.get("arg_count") or (g.get("defkind") == "Closure" and len(t.get("args", [])) == 2):
+                inline._inline_at(d, b, g)
+                changed = True
+        b += 1
+    return Fn(fn.name, d, fn.crate) if changed else fn
+
